@@ -147,3 +147,69 @@ Proof.
   - right. exists s1, i1. split; [exact Hs1|]. split; [exact HQ|].
     destruct HQ as (_ & _ & _ & _ & [[A _]|(B & A & _)]); auto.
 Qed.
+
+(* ------------------------------------------------------------------ a counter flush already in flight *)
+(* as [Pre], but the flusher is inside a counter flush (after its 1008 load or after its 1009 swap,
+   with whatever stale snapshot / delta it holds) at the moment the updates stop *)
+Definition PreIn (f : nat) (c0 : N) (s0 : list N) (c : config) : Prop :=
+  (forall u l, nth_error (snd c) u = Some l -> u <> f -> oth l) /\
+  cur (cnt (fst c)) = c0 /\
+  exists lf, nth_error (snd c) f = Some lf /\ Forall flush_op (todo lf) /\
+    match pcl lf with PF2 _ _ | PF3 _ _ => sent (fst c) = s0 | _ => False end.
+Definition SIn (f : nat) (c0 : N) (s0 : list N) (c : config) : Prop :=
+  PreIn f c0 s0 c \/ exists s0', (s0' = s0 \/ exists d, s0' = d :: s0) /\ SInv f c0 s0' c.
+
+Lemma step_preserves_SIn fx f c0 s0 : step_preserves (step fx) (SIn f c0 s0).
+Proof.
+  intros s ls t l s' l' [HP|(s0' & Hs0 & HS)] Hnth Hstep.
+  2:{ right. exists s0'. split; [exact Hs0|]. eapply step_preserves_SInv; eauto. }
+  destruct HP as (Ho & Hc & lf & Ef & Htd & Hpc). cbn [fst snd] in *.
+  destruct (Nat.eq_dec t f) as [->|Hne].
+  - rewrite Hnth in Ef. inversion Ef; subst lf. clear Ef.
+    assert (Hoth' : forall u x, nth_error (lupd ls f l') u = Some x -> u <> f -> oth x).
+    { intros u x Hu Hn. rewrite nth_error_upd_other in Hu by congruence. eapply Ho; eauto. }
+    unfold step in Hstep. destruct l as [p td rs]. cbn [pcl todo results] in *.
+    destruct p; try contradiction; cbn in Hstep.
+    + (* PF2 *) inversion Hstep; subst s' l'; clear Hstep. left. split; [exact Hoth'|]. split; [exact Hc|].
+      eexists. split; [eapply nth_error_upd_same; eauto|]. split; [exact Htd|]. cbn. exact Hpc.
+    + (* PF3: the in-flight flush completes; from here [Pre] holds *)
+      right. destruct st.
+      * destruct (decide fx (idle s) d (upd (cnt s))) as [i' o] eqn:Ed. inversion Hstep; subst s' l'; clear Hstep.
+        exists (match o with Some x => x :: sent s | None => sent s end).
+        split; [destruct o; [right; eexists; rewrite Hpc; reflexivity|left; exact Hpc]|].
+        left. split; [exact Hoth'|]. split; [exact Hc|].
+        eexists. split; [eapply nth_error_upd_same; eauto|]. split; [exact Htd|]. cbn. reflexivity.
+      * inversion Hstep; subst s' l'; clear Hstep.
+        exists (sent s). split; [left; exact Hpc|].
+        left. split; [exact Hoth'|]. split; [exact Hc|].
+        eexists. split; [eapply nth_error_upd_same; eauto|].
+        destruct (enter_flush_pc td (RCnt d (upd (cnt s)) :: rs) Htd) as [X1 X2]. split; [exact X2|].
+        cbn [fst sent]. destruct (pcl (enter td (RCnt d (upd (cnt s)) :: rs))); try contradiction; reflexivity.
+  - destruct (other_step fx s l s' l' Hstep (Ho t l Hnth Hne)) as (Ec & Es & Ei & Hol').
+    left. split; [|split].
+    + intros u x Hu Hn. apply nth_error_upd_cases in Hu. destruct Hu as [[-> ->]|[_ Hu]]; [exact Hol'|eapply Ho; eauto].
+    + cbn [fst]. rewrite Ec. exact Hc.
+    + exists lf. split; [cbn [snd]; rewrite nth_error_upd_other by exact Hne; exact Ef|]. split; [exact Htd|].
+      cbn [fst]. rewrite Es. exact Hpc.
+Qed.
+
+(* with a counter flush in flight when the updates stop: at most ONE more delta (the in-flight one),
+   then the suffix behaviour of [idle_once_suffix] *)
+Theorem idle_once_suffix_in_flight fx f c0 s0 c sched :
+  PreIn f c0 s0 c ->
+  let c' := fst (exec (step fx) site c sched) in
+  (PreIn f c0 s0 c' /\ sent (fst c') = s0) \/
+  exists s0', (s0' = s0 \/ exists d, s0' = d :: s0) /\
+    ((Pre f c0 s0' c' /\ sent (fst c') = s0') \/
+     exists s1 i1, (s1 = s0' \/ exists d, s1 = d :: s0') /\ Qinv c0 s1 i1 c' /\
+                   (sent (fst c') = s1 \/ (i1 = false /\ sent (fst c') = 0 :: s1))).
+Proof.
+  intros HP c'.
+  pose proof (invariant_all_schedules (step fx) site (SIn f c0 s0) (step_preserves_SIn fx f c0 s0) sched c (or_introl HP)) as H.
+  fold c' in H. destruct H as [H|(s0' & Hs0 & [H|(s1 & i1 & Hs1 & HQ)])].
+  - left. split; [exact H|]. destruct H as (_ & _ & lf & _ & _ & Hpc). destruct (pcl lf); try contradiction; exact Hpc.
+  - right. exists s0'. split; [exact Hs0|]. left. split; [exact H|].
+    destruct H as (_ & _ & lf & _ & _ & Hpc). destruct (pcl lf); try contradiction; tauto.
+  - right. exists s0'. split; [exact Hs0|]. right. exists s1, i1. split; [exact Hs1|]. split; [exact HQ|].
+    destruct HQ as (_ & _ & _ & _ & [[X _]|(B & X & _)]); auto.
+Qed.
